@@ -224,6 +224,22 @@ def check_ignore(rep, site, ev, prefix):
     return
 
 
+def _ignore_materialised(prog):
+    """Does the enumeration turn its `ignore` argument into a collection of its own before testing membership (then an
+    iterator is as good as a list)?"""
+    import ast as _ast
+
+    fi = prog.lookup_method("inference.optimizer.OptimizerRC2", "minimal_correction_subsets")
+    if fi is None:
+        return False
+    for x in fi.node.body:
+        if isinstance(x, _ast.Assign) and any(isinstance(t, _ast.Name) and t.id == "ignore" for t in x.targets) and isinstance(x.value, _ast.Call) \
+                and isinstance(x.value.func, _ast.Name) and x.value.func.id in ("set", "frozenset", "list", "tuple", "sorted") \
+                and len(x.value.args) == 1 and isinstance(x.value.args[0], _ast.Name) and x.value.args[0].id == "ignore":
+            return True
+    return False
+
+
 def ignore_evaluated(rep, ex: Explorer, be: Backend, prefix):
     """W.ignore / LEX.ignore: the ignore list is the complement of the soft owners - the keys of every layer other than k.
     Decided by evaluating `_rec_inference` on concrete partitions of 1..4 layers (layers of one and two keys) at every
@@ -256,7 +272,7 @@ def ignore_evaluated(rep, ex: Explorer, be: Backend, prefix):
                         continue
                     n_calls += 1
                     line = line or ev.node.lineno
-                    if ev.data.get("ignore_one_shot") and bad is None:
+                    if ev.data.get("ignore_one_shot") and bad is None and not _ignore_materialised(ex.prog):
                         bad = f"layers {layers} at layer {k}: the ignore argument is an iterator (generator / chain): every membership test of the enumeration advances it, so later tests and the next computation find less than the keys of the other layers"
                     if ev.ignore is None:
                         got = set()
